@@ -23,6 +23,8 @@ mod c13;
 mod c14;
 mod c15;
 mod c16;
+mod c17;
+mod c17_real;
 mod c16_world;
 mod c18;
 mod c19;
@@ -92,6 +94,7 @@ fn main() {
         "C14" => c14::run(tier),
         "C15" => c15::run(tier),
         "C16" => c16::run(tier),
+        "C17" => c17::run(tier),
         "C18" => c18::run(tier),
         "C19" => c19::run(tier),
         _ => {
@@ -128,6 +131,7 @@ fn main() {
         "C14" => c14::replay(&sub, &v["witness"]),
         "C15" => c15::replay(&sub, &v["witness"]),
         "C16" => c16::replay(&sub, &v["witness"]),
+        "C17" => c17::replay(&sub, &v["witness"]),
         "C18" => c18::replay(&sub, &v["witness"]),
         "C19" => c19::replay(&sub, &v["witness"]),
         _ => Err(format!("no replay registered for {}", prop)),
